@@ -216,9 +216,12 @@ type evidence struct {
 // (and the violation artefact), prints the verdict and returns the exit code.
 func (r *Report) Finish() int {
 	for _, ri := range r.rules {
-		if ri.Instances < ri.Floor {
+		// vacuity guard: the number of instances confirmed by hand on the pinned tree is recorded per rule;
+		// a rule that still finds at least half of them is not vacuous (behaviour-preserving edits merge or
+		// split sites), the individual obligations decide the rest
+		if eff := (ri.Floor + 1) / 2; ri.Instances < eff {
 			r.Obls = append(r.Obls, Obligation{Rule: ri.ID, Key: ri.ID + ":instance-floor", Status: Undecided,
-				Detail: fmt.Sprintf("UNDECIDED rule went vacuous: %d instances matched, floor is %d (confirmed by hand on the pinned tree)", ri.Instances, ri.Floor)})
+				Detail: fmt.Sprintf("UNDECIDED rule went vacuous: %d instances matched, fewer than half of the %d confirmed by hand on the pinned tree", ri.Instances, ri.Floor)})
 			ri.Violated++
 		}
 	}
